@@ -18,6 +18,9 @@ ASSUMPTIONS = ["that the same plaintext results for every segmentation is value-
 DATAGRAM_HINTS = ("Socks5UdpCodec", "shadowsocks::udp", "DatagramPacketCodec", "SessionCodec")
 
 
+SOURCES_ = ("UdpSocket::recv_from", "TcpListener::accept", "Buf::get_u8", "Buf::get_u64")
+
+
 def is_datagram(prog, b):
     d = prog.display(b.defp)
     return any(h in d for h in DATAGRAM_HINTS)
@@ -284,18 +287,24 @@ def run(ctx):
                 p_ = op_place(t["d"])
                 if p_ is None:
                     continue
-                is_flag = False
+                # a switch on a field of the adapter (a bool flag, or the discriminant of a state enum)
+                is_state = False
                 for d in b.defs().get(p_[0], []):
-                    if d[0] == "assign" and d[3]["rv"]["k"] == "use":
-                        q = op_place(d[3]["rv"]["op"])
-                        if q and any(e[0] == "field" for e in q[1]) and b.local_ty(p_[0]) == "bool":
-                            is_flag = True
-                if not is_flag:
+                    if d[0] == "assign" and d[3]["rv"]["k"] in ("use", "discr"):
+                        q = op_place(d[3]["rv"]["op"]) if d[3]["rv"]["k"] == "use" else d[3]["rv"]["p"]
+                        if q and any(e[0] == "field" for e in q[1]) and not any(e[0] == "downcast" for e in q[1]) and \
+                                (b.local_ty(p_[0]) == "bool" or d[3]["rv"]["k"] == "discr"):
+                            is_state = True
+                if not is_state:
                     continue
-                tt = t["otherwise"]
-                ft = [tg for v, tg in t["arms"] if v == 0]
-                if ft and any(b.dominates(tt, db) for (db, _, _) in decs_):
-                    avoid.add(ft[0])
+                targets = [tg for v, tg in t["arms"]] + [t["otherwise"]]
+                decode_arms = {tg for tg in targets if any(b.dominates(tg, db) for (db, _, _) in decs_)}
+                if decode_arms:
+                    # the other arms are the "nothing new to offer" edges of that state
+                    for tg in targets:
+                        tt_ = b.term(tg)
+                        if tg not in decode_arms and not (tt_ and tt_["k"] == "unreachable"):
+                            avoid.add(tg)
         # ... or the edge on which the carry-over buffer is known to be empty (`self.buffer.take()` returned None)
         for (tb, tc, tt_) in b.calls():
             if tc.name in ("Option::take", "Option::is_none", "Option::as_mut", "Option::as_ref"):
@@ -312,7 +321,11 @@ def run(ctx):
     # ---------------- R4e ----------------------------------------------------------------------
     inserters = set()
     for b in prog.prod_bodies():
-        if b.root == b.defp and any(c.method in ("lock", "try_lock") and "Mutex" in c.self_s for (_, c, _) in b.calls()) and any(c.method == "insert" and "LruCache" in c.self_s for (_, c, _) in b.calls()):
+        if b.root != b.defp or b.argc < 2 or b.local_ty(0) not in ("bool", "()"):
+            continue
+        fc_ = prog.flat(b.defp).calls()       # the lock may be taken in a private helper of the cache type; a wrapper counts too
+        if any(c.method in ("lock", "try_lock") and "Mutex" in c.self_s for (_, c, _) in fc_) and any(c.method == "insert" and "LruCache" in c.self_s for (_, c, _) in fc_) \
+                and "shadowsocks" in b.defp and not any(c.name in SOURCES_ for (_, c, _) in fc_):
             inserters.add(b.defp)
     ctx.floor("R4e", "replay-cache insert functions", 1, len(inserters))
     n_ins = 0
